@@ -39,7 +39,7 @@ REQUIRED_CELLS = {
               'single:ph=1', 'single:ph=0', 'single:form=dict', 'single:form=str', 'single:form=list',
               'single:basis=mol', 'single:basis=wt_copy', 'single:basis=wt_coeff', 'single:basis=wt_setter',
               'single:basis=mol_from_wt', 'single:derive=copy_other', 'single:derive=copy_then_setter',
-              'single:derive=setter_roundtrip', 'sets:derive=copy_other', 'sets:derive=members_copy_other', 'sets:kind=par', 'sets:kind=ser', 'sets:kind=sys', 'sets:xpkg',
+              'single:derive=setter_roundtrip', 'sets:derive=copy_other', 'sets:derive=members_copy_other', 'sets:slice-not-prefix', 'entry:failed-call', 'entry:force-ok', 'sets:kind=par', 'sets:kind=ser', 'sets:kind=sys', 'sets:xpkg',
               'sets:ph=1', 'sets:basis=wt', 'outcome:InfeasibleRegion', 'outcome:returned',
               'parser:ph=0', 'parser:ph=1'],
     'thorough': [],
@@ -280,6 +280,37 @@ def prop_sets(ch, ctx):
         struct = ['sys', [list(g) for g in groups]]
     if set_copy_wt:
         obj = ctx.call('build.set.copy_wt', lambda: obj.copy(basis='wt'), region=region_b)
+    # sliced sets (every slice form: prefixes, suffixes, steps, reversed) are reaction objects of their own
+    sliced = 'none'
+    if kind in ('par', 'ser'):
+        sliced = ch.choice('slice', ['none', 'none', 'drawn', 'drawn', 'suffix', 'step2', 'reversed'])
+        if sliced != 'none':
+            if sliced == 'drawn':
+                a0 = ch.choice('slice.start', [None] + list(range(-n, n)))
+                a1 = ch.choice('slice.stop', [None] + list(range(-n, n + 1)))
+                a2 = ch.choice('slice.step', [None, 1, 2, 3, -1, -2])
+                sl = slice(a0, a1, a2)
+            elif sliced == 'suffix':
+                sl = slice(ch.int('slice.from', 0, n - 1), None)
+            elif sliced == 'step2':
+                sl = slice(ch.int('slice.from', 0, min(1, n - 1)), None, 2)
+            else:
+                sl = slice(None, None, -1)
+            sel = list(range(n))[sl]
+            if not sel:
+                sl = slice(None); sel = list(range(n)); sliced = 'full'
+            parent = obj
+            obj = ctx.call('slice', lambda: parent[sl], region=region_b)
+            if type(obj) is not type(parent) or len(obj.X) != len(sel):
+                ctx.fail(f'slice|{region_b}|type', f'{type(obj).__name__} with {len(obj.X)} reactions for {len(sel)} selected')
+            specs = [specs[k] for k in sel]
+            refs = [refs[k] for k in sel]
+            ref = rx.RefRxn(kind, refs)
+            struct = [kind, n, [sl.start, sl.stop, sl.step]]
+            n = len(sel)
+            ctx.cell(f'sets:slice={sliced}')
+            if sel != list(range(len(sel))):
+                ctx.cell('sets:slice-not-prefix')
     ctx.cell(f'sets:kind={kind}'); ctx.cell(f'sets:ph={int(tagged)}'); ctx.cell(f'sets:basis={set_basis}')
     ctx.cell(f'sets:n={n}')
     if obj._basis != set_basis:
@@ -556,9 +587,158 @@ def prop_balance(ch, ctx):
     ctx.nontriv(['balance', op, basis, list(phases), spec.summary(), sorted((k, str(v)) for k, v in fac.items())])
 
 
+# ---------------------------------------------------------------------------
+# other entry points, failing calls, and the process-wide feasibility switch
+# ---------------------------------------------------------------------------
+def prop_entry(ch, ctx):
+    """One case = a short history on one reaction object: a call through some entry point that fails for a
+    documented reason (or a successful force_reaction), FOLLOWED by an ordinary call on a feed whose co-reactants are
+    missing.  The later call must not depend on the earlier one."""
+    from thermosteam.exceptions import UndefinedChemicalAlias
+    pid = ch.choice('pkg', ['W', 'X', 'Y'])            # packages that lack some chemicals of 'U'
+    pnames = list(rx.PACKAGES[pid])
+    MW = rx.mw(pid)
+    kind = ch.choice('kind', ['rxn', 'par', 'ser', 'sys'])
+    tagged = ch.bool('phase_tagged')
+    basis = ch.choice('basis', ['mol', 'wt'])
+    n = 1 if kind == 'rxn' else ch.int('n', 1, 3)
+    phases, pm_all = (), None
+    if tagged:
+        full, pm_all = rx.draw_phase_map(ch, 'pm', pnames)
+        phases = tuple(full)
+    tmo.settings.set_thermo(rx.thermo(pid))
+    specs, rxns = [], []
+    region_b = f'entry,basis={basis},ph={int(tagged)}'
+    for i in range(n):
+        nu = rx.draw_stoich(ch, f'r{i}', pnames, kmax=4)
+        # prefer a reactant that has a co-reactant on its side, so that a feed without co-reactants is infeasible
+        cands = [c for c in nu if sum(1 for v in nu.values() if (v > 0) == (nu[c] > 0)) >= 2] or list(nu)
+        reactant = ch.choice(f'r{i}.reactant', cands)
+        X = ch.choice(f'r{i}.X', [0.9, 0.5, 1.0, 0.25])
+        spec = rx.RSpec(nu, reactant, X, {k: pm_all[k] for k in nu} if tagged else None)
+        r, _ = rx.build_reaction(ch, f'r{i}', spec, pid, 'dict', 'mol' if basis == 'mol' else 'wt_coeff', phases, True, ctx,
+                                 site='build', region=region_b)
+        specs.append(spec); rxns.append(r)
+    refs = [rx.ref_of(sp, pnames, basis, MW, phases) for sp in specs]
+    if kind == 'rxn':
+        obj, ref = rxns[0], refs[0]
+    elif kind == 'par':
+        obj, ref = ctx.call('build.par', tmo.ParallelReaction, rxns, region=region_b), rx.RefRxn('par', refs)
+    elif kind == 'ser':
+        obj, ref = ctx.call('build.ser', tmo.SeriesReaction, rxns, region=region_b), rx.RefRxn('ser', refs)
+    else:
+        obj, ref = ctx.call('build.sys', tmo.ReactionSystem, *rxns, region=region_b), rx.RefRxn('sys', refs)
+    kk = {'rxn': 'R', 'par': 'P', 'ser': 'S', 'sys': 'Y'}[kind]
+    nrows = len(phases) if tagged else 1
+    # ---- step 1: an earlier call ----------------------------------------------------------------
+    first = ch.choice('first', ['force_fails', 'force_fails', 'call_fails', 'conversion_fails', 'adiabatic_fails',
+                                'force_ok', 'force_ok', 'none'])
+    why = ch.choice('why', ['undefined_chemical', 'phase_mismatch']) if first.endswith('fails') and first != 'adiabatic_fails' else None
+    region1 = f'kind={kk},basis={basis},ph={int(tagged)},first={first},why={why}'
+    if first == 'adiabatic_fails':
+        try:
+            ctx.call('adiabatic_reaction', obj.adiabatic_reaction, np.ones((nrows, len(pnames)))[0 if not tagged else slice(None)],
+                     allowed=(ValueError,), region=region1)
+        except ValueError:
+            ctx.cell('entry:failed-call')
+        else:
+            ctx.fail(f'adiabatic_reaction|{region1}|accepted', 'adiabatic_reaction accepted an array (documented: Stream only)')
+    elif first.endswith('fails'):
+        method = {'force_fails': obj.force_reaction, 'call_fails': obj, 'conversion_fails': getattr(obj, 'conversion', obj)}[first]
+        if why == 'undefined_chemical':
+            # a stream of package U carrying a chemical the reaction's package lacks (documented: UndefinedChemical)
+            unames = list(rx.PACKAGES['U'])
+            foreign = [nm for nm in unames if nm not in pnames]
+            rows = np.zeros((nrows, len(unames)))
+            rows[ch.int('bad.row', 0, nrows - 1), unames.index(ch.choice('bad.chemical', foreign))] = 3.0
+            rows[0, unames.index(specs[0].reactant)] = 5.0
+            bad = rx.build_stream('U', rows, tuple(phases) if tagged else ['l'])
+            expect = (UndefinedChemicalAlias,)
+        else:
+            # phases of the stream differ from the reaction's (documented ValueError); phase-less reactions take the
+            # undefined-chemical route instead
+            if tagged:
+                others = [p for p in rx.PHASES if p not in phases]
+                ph2 = tuple(sorted(set(list(phases[1:]) + [others[0]])))
+                rows = np.zeros((len(ph2), len(pnames))); rows[0, pnames.index(specs[0].reactant)] = 5.0
+                bad = rx.build_stream(pid, rows, ph2)
+                expect = (ValueError,)
+            else:
+                unames = list(rx.PACKAGES['U'])
+                foreign = [nm for nm in unames if nm not in pnames]
+                rows = np.zeros((1, len(unames))); rows[0, unames.index(foreign[0])] = 3.0
+                bad = rx.build_stream('U', rows, ['l'])
+                expect = (UndefinedChemicalAlias,)
+        try:
+            ctx.call(first, method, bad, allowed=expect, region=region1)
+        except expect:
+            ctx.cell('entry:failed-call')
+        else:
+            ctx.fail(f'{first}|{region1}|accepted', 'a call that must be rejected returned normally')
+    elif first == 'force_ok':
+        # force_reaction = the plain reaction semantics without the feasibility test (negative flows are kept)
+        feed1 = rx.draw_feed(ch, 'feed1', len(pnames), nrows)
+        if not tagged: feed1 = feed1[0]
+        t1 = ch.choice('target1', ['nd', 'S'])
+        if t1 == 'nd':
+            target = feed1.copy(); fin = feed1
+        else:
+            target = rx.build_stream(pid, np.atleast_2d(feed1), tuple(phases) if tagged else ['l'])
+            fin = feed1 * MW if basis == 'wt' else feed1
+        want = ref.apply(fin)
+        if t1 == 'S' and basis == 'wt':
+            want = want / MW
+        ctx.call('force_reaction', obj.force_reaction, target, region=region1)
+        got = rx.dense_of(target).reshape(want.shape)
+        sc = max(1.0, float(np.abs(fin).sum()), float(np.abs(want).sum()))
+        # documented clean-up: negligible negatives are removed
+        err = float(np.abs(got - np.where((want < 0) & (want > -1e-9 * sc), 0.0, want)).max())
+        if not err <= 1e-12 * sc + 1e-9 * sc * ((want < 0) & (want > -1e-6 * sc)).any():
+            ctx.fail(f'force_reaction|{region1},tgt={t1}|mismatch', f'max |got-ref| = {err!r} (scale {sc!r})')
+        ctx.cell('entry:force-ok')
+        if (want < -1e-6 * sc).any():
+            ctx.cell('entry:force-ok-negative')
+    # ---- step 2: an ordinary call that the reference decides ----------------------------------------
+    feed = np.zeros((nrows, len(pnames)))
+    poor = ch.bool('poor_feed')
+    if poor or first == 'none':
+        # only the reactants of the members are fed: co-reactants are missing
+        for sp, rf in zip(specs, refs):
+            feed[(rf.idx if tagged else (0, rf.idx))] = ch.choice(f'feed.{sp.reactant}', [10.0, 1.0, 250.0])
+    else:
+        feed = rx.draw_feed(ch, 'feed', len(pnames), nrows)
+    if not tagged:
+        feed = feed[0]
+    tgt = ch.choice('target', ['nd', 'S', 'sv'])
+    region = f'kind={kk},basis={basis},ph={int(tagged)},tgt={tgt},xpkg=0,first={first}'
+    out = rx.apply_and_judge(ctx, 'react.after', region, obj, ref, basis, pid, feed, tgt, phases, pid, rtol=TOL)
+    ctx.nontriv(['entry', kk, basis, list(phases), [sp.summary() for sp in specs], first, why, tgt, poor, out['raised']])
+
+
+def _guarded(fn):
+    """State invariant for every case: no call may leave the process-wide feasibility switch off.  (The switch is
+    ``thermosteam.reaction.CHECK_FEASIBILITY``; it is put back here so that cases stay independent.)"""
+    def run(ch, ctx):
+        import thermosteam.reaction as R
+        R.CHECK_FEASIBILITY = True
+        try:
+            fn(ch, ctx)
+        finally:
+            off = R.CHECK_FEASIBILITY is not True
+            R.CHECK_FEASIBILITY = True
+        if off:
+            ctx.fail('state|CHECK_FEASIBILITY|left-off',
+                     'thermosteam.reaction.CHECK_FEASIBILITY is not True at the end of the case: an earlier call switched the '
+                     'feasibility test off for the rest of the process')
+    run.__name__ = fn.__name__
+    return run
+
+
 PROPS = {
     'single': (prop_single, 4500, 180000),
     'sets': (prop_sets, 3000, 140000),
     'parser': (prop_parser, 800, 30000),
     'balance': (prop_balance, 1200, 50000),
+    'entry': (prop_entry, 1200, 50000),
 }
+PROPS = {k: (_guarded(v[0]),) + tuple(v[1:]) for k, v in PROPS.items()}
